@@ -70,6 +70,7 @@ type retRec struct {
 
 type Exec struct {
 	E              *Env
+	Wrap64         bool
 	frameAllowed   map[string]*frameAllow
 	epochMerge     map[int]*epochMergeRec
 	eachVisited    *Term // inside an `each N invariant`: the set of elements already visited
@@ -394,6 +395,18 @@ func (X *Exec) runRegion(fr *Frame, cfg *cfgInfo, region map[int]bool, start *ss
 
 // loopVars: names that mean something relative to one loop: `rangeindex` is the hidden index of THIS range loop.
 func (X *Exec) loopVars(fr *Frame, li *loopInfo, st *State) map[string]*Val {
+	// range over a map: visited(k) = key k has been produced by this loop's iterator
+	for _, ins := range li.Head.Instrs {
+		if nx, ok := ins.(*ssa.Next); ok {
+			if rg, ok := nx.Iter.(*ssa.Range); ok {
+				if mt, ok := rg.X.Type().Underlying().(*types.Map); ok {
+					name := fmt.Sprintf("IT|%s|%d", X.pos(rg.Pos()), 0)
+					srt := ArraySort(X.E.SortOf(mt.Key()), SBool)
+					return map[string]*Val{"visited~": {T: X.heap(st, name, srt)}}
+				}
+			}
+		}
+	}
 	for _, ins := range li.Head.Instrs {
 		if s, ok := ins.(*ssa.Store); ok {
 			if a, ok := s.Addr.(*ssa.Alloc); ok && a.Comment == "rangeindex" {
@@ -969,11 +982,7 @@ func (X *Exec) renameCandidates(fr *Frame, li *loopInfo, entry *State) []*Candid
 			func() {
 				defer func() {
 					if r := recover(); r != nil {
-						if _, isSE := r.(specErr); isSE {
-							ok = false
-							return
-						}
-						panic(r)
+						ok = false // a local of another type in that role does not fit
 					}
 				}()
 				X.evalClause(fr, entry.Clone(), cc, X.loopVars(fr, li, entry))
@@ -986,11 +995,7 @@ func (X *Exec) renameCandidates(fr *Frame, li *loopInfo, entry *State) []*Candid
 				func() {
 					defer func() {
 						if r := recover(); r != nil {
-							if _, isSE := r.(specErr); isSE {
-								t = nil
-								return
-							}
-							panic(r)
+							t = nil
 						}
 					}()
 					t = fr.Exec.evalClause(fr, st, cc, fr.Exec.loopVars(fr, li, st))
